@@ -286,6 +286,21 @@ def D23():
     return holds, f"class Color(str, Enum): convert(Color.RED, Color) -> {a!r}; into_data(Color.RED, Union[int, Color]) -> {b!r}"
 
 
+def D30():
+    import pane
+    from pane.util import broadcast_shapes, is_broadcastable
+    import numpy
+    saved = sys.modules['numpy']
+    sys.modules['numpy'] = None      # `import numpy` inside broadcast_shapes now raises ImportError: the pure-Python fallback runs
+    try:
+        r = [_outcome(lambda: broadcast_shapes((0,), (1,))), _outcome(lambda: broadcast_shapes((2, 0), (2, 1))),
+             _outcome(lambda: broadcast_shapes((2, 3), (3,))), _outcome(lambda: is_broadcastable((0,), (3,)))]
+    finally:
+        sys.modules['numpy'] = saved
+    holds = [x[:2] for x in r] == [('ok', (0,)), ('ok', (2, 0)), ('ok', (2, 3)), ('ok', False)]
+    return holds, f"without numpy: broadcast_shapes((0,),(1,)), ((2,0),(2,1)), ((2,3),(3,)), is_broadcastable((0,),(3,)) -> {[x[1] if x[0] == 'ok' else x[1] for x in r]!r}"
+
+
 def D29():
     import pane
     class E(enum.Enum):
